@@ -486,11 +486,16 @@ void scan_deps(const std::string& orig_portname, std::string cur_portname,
     };
 
     // this port and all parent ports can be enabled by another port, so check them all
+    bool is_parent = false;
     for(std::string::size_type last_slash;
         cur_portname.size() && (last_slash = cur_portname.find_last_of('/')) != std::string::npos;
-          cur_portname.resize(last_slash))
+          cur_portname.resize(last_slash), is_parent = true)
     {
-        const Port* port = ports.apropos(cur_portname.c_str());
+        // a parent is a sub-tree: look it up as "name/", otherwise a sibling
+        // "name:" (rRecur declares one) or "name_x" is taken for it
+        const Port* port = ports.apropos(is_parent
+                                         ? (cur_portname + "/").c_str()
+                                         : cur_portname.c_str());
         if(port)
         {
             const char* dep_types[3] = { "enabled by", "depends", "default depends" };
